@@ -146,6 +146,21 @@ pub fn placeholder(rng: &mut Rng) -> String {
         }
         return w.clone();
     }
+    if rng.chance(1, 6) {
+        // a code point from the families an internal marker is usually taken from: noncharacters
+        // (U+FDD0..U+FDEF, the last two of every plane) and the first few private-use code points
+        // of each private-use area (a marker "base + index")
+        let cp = match rng.below(5) {
+            0 => 0xFDD0 + rng.below(32) as u32,
+            1 => (rng.below(17) as u32) * 0x10000 + 0xFFFE + rng.below(2) as u32,
+            2 => 0xE000 + rng.below(24) as u32,
+            3 => 0xF0000 + rng.below(24) as u32,
+            _ => 0x100000 + rng.below(24) as u32,
+        };
+        if let Some(c) = char::from_u32(cp) {
+            return if rng.chance(1, 2) { c.to_string() } else { format!("a{c}b") };
+        }
+    }
     rng.pick(&PLACEHOLDERS).to_string()
 }
 
